@@ -51,6 +51,7 @@ class Harness:
         self.obligation = meta.get('obligation', name)
         self.expect = meta.get('expect', 'pass')    # 'pass' | 'cover' (reachability twin)
         self.finding = meta.get('finding')            # id of a known finding this harness witnesses
+        self.native = meta.get('native', 'yes') == 'yes'   # 'no': stand-ins without native rendering -> no native playback
         self.optional = meta.get('optional', 'no') == 'yes'   # a solver timeout is reported but does not make the check undecided
         self.kc = kc
 
